@@ -1,17 +1,18 @@
 SPECIFICATION Spec
 CONSTANTS
-  Addrs <- mc_Addrs
+  Addrs <- mc_Addrs2
   Rate = 1000
-  Burst = 2
+  Burst = 3
   V4Mask = 0
   V6Mask = 0
   GRate = 0
   GBurst = 0
   Costs <- mc_Costs
-  MaxT = 3
-  Ttl = 0
-  GcRefilled = TRUE
+  MaxT = 4
+  Ttl = 1
+  GcRefilled = FALSE
   MaxArrivals = 5
-VIEW view
-INVARIANTS EmitStim
+VIEW viewAdm
+INVARIANTS TypeOK Inv_C15_Budget
+PROPERTIES C15_Isolation
 CHECK_DEADLOCK FALSE
